@@ -582,6 +582,196 @@ pub fn run_capture_with(prog: &Prog, filter: &FilterSpec, stale_roots: bool) -> 
     }
 }
 
+// ---- hostile renderings (shared with C16) ---------------------------------------------------------
+
+pub const LOUD: &str = "Loud (logs while it is rendered)";
+pub const BOMB: &str = "Bomb (panics while it is rendered)";
+
+/// Executes a program whose `Debug` values misbehave: rendering `LOUD` emits an event on call site 1,
+/// rendering `BOMB` panics (the guest catches its own panic).  An operation that panicked is skipped.
+pub fn exec_hostile(prog: &Prog) -> (ExecResult, Vec<u64>) {
+    let sites = make_sites(&prog.sites);
+    let inner = sites[1];
+    DEBUG_EFFECT.with(|e| {
+        *e.borrow_mut() = Some((LOUD.to_owned(), Box::new(move || {
+            if inner.is_enabled() {
+                with_value_set(inner, &[], |vs| tracing::Event::dispatch(inner.metadata(), vs));
+            }
+        })));
+    });
+    let mut r = ExecResult::default();
+    let mut raws = vec![];
+    for (_, op) in &prog.ops {
+        let bomb = match op {
+            Op::Record(_, vals) | Op::Event(_, _, vals) | Op::NewSpan(_, _, vals) => {
+                vals.iter().any(|(_, p)| matches!(p, Some(Prim::Debug(o)) if o.debug == BOMB))
+            }
+            _ => false,
+        };
+        let loud_span = matches!(op, Op::NewSpan(_, ParentKind::Ctx, vals)
+            if vals.iter().any(|(_, p)| matches!(p, Some(Prim::Debug(o)) if o.debug == LOUD)));
+        if bomb {
+            DEBUG_EFFECT.with(|e| *e.borrow_mut() = Some((BOMB.to_owned(), Box::new(|| std::panic::resume_unwind(Box::new("guest Debug impl panics"))))));
+            let _ = catch_unwind(AssertUnwindSafe(|| exec_op(&mut r, &sites, op)));
+            DEBUG_EFFECT.with(|e| *e.borrow_mut() = None);
+            DEBUG_EFFECT.with(|e| {
+                *e.borrow_mut() = Some((LOUD.to_owned(), Box::new(move || {
+                    if inner.is_enabled() {
+                        with_value_set(inner, &[], |vs| tracing::Event::dispatch(inner.metadata(), vs));
+                    }
+                })));
+            });
+            r.ops_run += 1;
+            continue; // no handle, no id: the guest never got the span
+        } else if loud_span {
+            // created through an explicit `Dispatch` handle (`Span::new_with`): tracing-core's guard against
+            // re-entering the thread's default dispatcher is not involved, the nested event is delivered
+            if let Op::NewSpan(cs, _, vals) = op {
+                let site = sites[*cs];
+                let dispatch = tracing::dispatcher::get_default(tracing::Dispatch::clone);
+                let span = with_value_set(site, vals, |vs| tracing::Span::new_with(site.metadata(), vs, &dispatch));
+                r.enabled.push(span.id().is_some());
+                r.span_sites.push(*cs);
+                r.handles.push(vec![span]);
+            }
+        } else {
+            exec_op(&mut r, &sites, op);
+        }
+        r.ops_run += 1;
+        if let Op::NewSpan(..) = op {
+            let id = r.handles.last().and_then(|hs| hs.first()).and_then(tracing::Span::id);
+            raws.push(id.map_or(0, |i| i.into_u64()));
+        }
+    }
+    DEBUG_EFFECT.with(|e| *e.borrow_mut() = None);
+    (r, raws)
+}
+
+/// `(name, the program the guest runs with misbehaving Debug values, the program whose trace it must be captured as)`
+pub fn hostile_scenarios() -> Vec<(&'static str, Prog, Prog)> {
+    let t = "guest::c16::hostile";
+    let sites = vec![
+        site(CallSiteKind::Span, "work", t, TracingLevel::Info, &["a", "b"]),
+        site(CallSiteKind::Event, "event src/hostile.rs:1", t, TracingLevel::Info, &[]),
+        site(CallSiteKind::Event, "event src/hostile.rs:2", t, TracingLevel::Warn, &["v"]),
+    ];
+    let dbg = |text: &str| Some(Prim::Debug(Obj { display: "-".into(), debug: text.to_owned() }));
+    let prog = |ops: Vec<Op>| Prog { sites: sites.clone(), ops: ops.into_iter().map(|o| (0usize, o)).collect() };
+    let span = || Op::NewSpan(0, ParentKind::Ctx, vec![]);
+    let inner = || Op::Event(1, ParentKind::Ctx, vec![]);
+    let scenarios: Vec<(&str, Prog, Prog)> = vec![
+        (
+            "loud-record",
+            prog(vec![span(), Op::Record(0, vec![(0, dbg(LOUD))]), inner(), Op::Drop(0)]),
+            prog(vec![span(), inner(), Op::Record(0, vec![(0, dbg(LOUD))]), inner(), Op::Drop(0)]),
+        ),
+        (
+            "loud-record-inside-the-span",
+            prog(vec![span(), Op::Enter(0), Op::Record(0, vec![(1, dbg(LOUD)), (0, Some(Prim::Bool(true)))]), Op::Exit(0), Op::Drop(0)]),
+            prog(vec![span(), Op::Enter(0), inner(), Op::Record(0, vec![(1, dbg(LOUD)), (0, Some(Prim::Bool(true)))]), Op::Exit(0), Op::Drop(0)]),
+        ),
+        (
+            "bomb-event",
+            prog(vec![span(), Op::Enter(0), Op::Event(2, ParentKind::Ctx, vec![(0, dbg(BOMB))]), inner(), Op::Exit(0), Op::Drop(0)]),
+            prog(vec![span(), Op::Enter(0), inner(), Op::Exit(0), Op::Drop(0)]),
+        ),
+        (
+            "bomb-record",
+            prog(vec![span(), Op::Record(0, vec![(0, dbg(BOMB))]), inner(), Op::Record(0, vec![(1, Some(Prim::Bool(false)))]), Op::Drop(0)]),
+            prog(vec![span(), inner(), Op::Record(0, vec![(1, Some(Prim::Bool(false)))]), Op::Drop(0)]),
+        ),
+    ];
+    let scenarios = {
+        let mut all = scenarios;
+        all.push((
+            "loud-span-attribute",
+            prog(vec![Op::NewSpan(0, ParentKind::Ctx, vec![(0, dbg(LOUD))]), inner(), Op::Drop(0)]),
+            prog(vec![inner(), Op::NewSpan(0, ParentKind::Ctx, vec![(0, dbg(LOUD))]), inner(), Op::Drop(0)]),
+        ));
+        all.push((
+            "bomb-span-attribute",
+            prog(vec![inner(), Op::NewSpan(0, ParentKind::Ctx, vec![(1, dbg(BOMB))]), inner()]),
+            prog(vec![inner(), inner()]),
+        ));
+        all
+    };
+    scenarios
+}
+
+/// One capture layer that captures everything; the hostile run happens on a thread of its own under a
+/// watchdog (a callback that re-enters the layer under its own lock never returns).  Both runs are
+/// judged against the quiet program; the case gets the worse verdict.
+fn hostile_capture_case(sink: &mut Sink, idx: u64, kind: &str, hostile: &Prog, quiet: &Prog) {
+    if !sink.wants(idx) {
+        return;
+    }
+    let filter = FilterSpec::Unfiltered;
+    let h = hostile.clone();
+    let (tx, rx) = std::sync::mpsc::channel();
+    std::thread::spawn(move || {
+        let _ = tx.send(run_capture_exec(&h, &FilterSpec::Unfiltered, exec_hostile));
+    });
+    let out = rx.recv_timeout(std::time::Duration::from_secs(20)).ok();
+    sink.bump(match &out {
+        None => "hostile:callback-never-returned",
+        Some((None, ..)) => "hostile:panic-escaped-or-storage-poisoned",
+        Some(_) => "hostile:completed",
+    });
+    let (qdump, qraws, ns, ne) = run_capture(quiet, &filter);
+    let hdump = out.and_then(|o| o.0);
+    let fexpr = filter.fexpr();
+    let key = format!("hostile {} {}", cprog(hostile), cprog(quiet));
+    intern_begin();
+    let term_of = |dump: &Option<String>| {
+        format!(
+            "judge_capture {} {} {} {}",
+            cprog(quiet),
+            cids(&qraws),
+            fexpr.coq(),
+            match dump {
+                Some(d) => format!("(Some {d})"),
+                None => "None".into(),
+            }
+        )
+    };
+    let mut term = term_of(&qdump);
+    if hdump != qdump {
+        sink.bump("hostile:DIFFERS-from-the-quiet-program");
+        term = format!("vworst ({term}) ({})", term_of(&hdump));
+    }
+    let judge = intern_wrap(&term);
+    sink.case(idx, kind, &judge, &key, ns + ne > 0, || {
+        serde_json::json!({ "hostile_program": show_prog(hostile), "captured_as": show_prog(quiet), "storage_of_the_hostile_run": hdump })
+    });
+}
+
+pub fn hostile_capture_cases(sink: &mut Sink, idx: &mut u64) {
+    for (name, hostile, quiet) in &hostile_scenarios() {
+        hostile_capture_case(sink, *idx, &format!("hostile-{name}"), hostile, quiet);
+        *idx += 1;
+    }
+}
+
+/// `run_capture` with the program executed by `exec`
+pub fn run_capture_exec(prog: &Prog, filter: &FilterSpec, exec: fn(&Prog) -> (ExecResult, Vec<u64>)) -> (Option<String>, Vec<u64>) {
+    let storage = SharedStorage::default();
+    let subscriber = Registry::default().with(filter.attach(CaptureLayer::new(&storage)));
+    let run = catch_unwind(AssertUnwindSafe(|| {
+        tracing::subscriber::with_default(subscriber, || {
+            let (r, raws) = exec(prog);
+            let dump = dump_shared(&storage);
+            drop(r);
+            (dump, raws)
+        })
+    }));
+    let poisoned = dump_shared(&storage).is_none();
+    match run {
+        Ok((Some((text, ..)), raws)) if !poisoned => (Some(text), raws),
+        Ok((_, raws)) => (None, raws),
+        Err(_) => (None, vec![]),
+    }
+}
+
 fn capture_case(sink: &mut Sink, idx: u64, kind: &str, prog: &Prog, filter: &FilterSpec) {
     if !sink.wants(idx) {
         return;
@@ -905,6 +1095,9 @@ pub fn run(o: &Opts) {
         capture_case(&mut sink, idx, "exhaustive-capture", prog, &info);
         idx += 1;
     }
+
+    // 2b. hostile renderings: values that log or panic while the layer renders them
+    hostile_capture_cases(&mut sink, &mut idx);
 
     // 3. random programs of the shared generator
     let cfg = GenCfg::balanced("c05");
